@@ -3,7 +3,7 @@
    them unreachable.  That the model has the same accept / reject / crash behaviour as the code is the
    correspondence leg of lib/c13.py; termination and stack / memory use are runtime behaviour that the
    model cannot exhibit (checked by running the code). *)
-From Az65 Require Import Base Token Expr CSpec ExprFacts ExprParse ExprParseFacts Linker Asm Full FullFacts CrashFacts Utf8 CharReader Lexer.
+From Az65 Require Import Base Token Expr CSpec ExprFacts ExprParse ExprParseFacts Linker Asm Arch ArchTables Run Full FullFacts CrashFacts SafeFacts Utf8 CharReader Lexer.
 
 (* (1) The evaluator never panics on a compiled expression, whatever the symbol table of compiled
        definitions: cycles (q1 = q1, a = b / b = a) are detected, division and remainder by zero and
@@ -27,6 +27,26 @@ Theorem C13_replay_never_crashes :
           (SrcMacro (map (slotify params) toks) args ent None) <> None.
 Proof. exact replay_never_crashes. Qed.
 Print Assumptions C13_replay_never_crashes.
+
+(* (4) The whole token-level pipeline - every statement arm of the assembler, the instruction parser of
+       each of the three CPUs (798 + 514 + 151 rows), and the linker - for EVERY token sequence and every
+       set of @incbin files: the run ends in bytes, in a diagnostic, or by exhausting the model's own fuel;
+       none of the modelled panic sites (unwrap on the evaluation stack, overflow, division, patch index
+       of a link, operand index of an instruction template) is reachable.  Invariant (SafeFacts.Inv):
+       every stored definition and every link expression is parser output, and every link's patch range
+       lies inside the bytes emitted so far. *)
+Theorem C13_run_asm_never_panics :
+  forall a files ts c, run_asm a files ts = Crash c -> c = CkFuel.
+Proof. exact run_asm_never_panics. Qed.
+Print Assumptions C13_run_asm_never_panics.
+
+(* (5) The linker alone, for any symbol table of parser-built definitions and any links whose patch
+       ranges lie inside the image: no panic (the situation the seeded change C13-2 breaks). *)
+Theorem C13_link_all_never_panics :
+  forall st refs ls d,
+    wf_st st -> Forall (link_ok (length d)) ls -> good (fun _ => True) (link_all st refs ls d).
+Proof. exact link_all_good. Qed.
+Print Assumptions C13_link_all_never_panics.
 
 (* non-vacuity: the historical crashes, as the model sees them now *)
 Example C13_selfref :
